@@ -5,7 +5,7 @@ From Centro Require Import Base.Sx Base.EmdBase Spec.Emd Model.Emd Model.EmdCert
   Proofs.EmdDuality Proofs.EmdScaled Proofs.EmdModel Proofs.EmdSsp Proofs.EmdCertModel Proofs.EmdMetric
   Proofs.EmdFuel Proofs.EmdHeap Proofs.EmdTransform Proofs.EmdHeapPos Proofs.EmdHeapOrd Proofs.EmdPotential
   Proofs.EmdMcfCert Proofs.EmdHeapMem Proofs.EmdDijkstra Proofs.EmdDijkstraInit
-  Proofs.EmdTight Proofs.EmdGhost Proofs.EmdCspPost Proofs.EmdPairAddr Proofs.EmdGraphShape Proofs.EmdAugment Proofs.EmdRun Proofs.EmdConserve.
+  Proofs.EmdTight Proofs.EmdGhost Proofs.EmdCspPost Proofs.EmdPairAddr Proofs.EmdGraphShape Proofs.EmdAugment Proofs.EmdRun Proofs.EmdConserve Proofs.EmdConserveRun.
 From Centro Require Import Model.EmdMcf.
 Import ListNotations.
 Open Scope Z_scope.
@@ -514,3 +514,35 @@ Theorem C10_hop_conserves : forall nv c pi rf rb e from to dl, length c = nv ->
   forall v, bal nv e' rb2 v = bal nv e rb v.
 Proof. exact hop_conserves. Qed.
 Print Assumptions C10_hop_conserves.
+
+(* ------------------------------------------------------------------------------------------------
+   Round 10.  caps_flow_conserved — Full under the flag: C10_hop_conserves lifted through augment
+   (C10_augment_conserves), through one iteration (compute_shortest_path does not touch capacities)
+   and through the whole flagged run: at Done with the flag clear, started from mcf_init on balanced
+   supplies and a graph with non-negative costs, ALL excesses are zero and at every node
+   outflow - inflow of the capacity flow equals the supply the solver was given. *)
+Theorem C10_augment_conserves : forall nv c pi rf, length c = nv ->
+  forall fuel prev k to dl e x rb e' x' rb',
+  ghost nv c pi rf rb -> length e = nv ->
+  (forall f t, In (f, t) (hops fuel prev k to) -> (f < nv)%nat /\ (t < nv)%nat /\ pair_count rf f t = 1%nat) ->
+  augment fuel prev k to dl e x rb = Some (e', x', rb') ->
+  forall v, bal nv e' rb' v = bal nv e rb v.
+Proof. exact augment_conserves. Qed.
+Print Assumptions C10_augment_conserves.
+
+Theorem C10_caps_flow_conserved : forall nv c, length c = nv ->
+  forall e st fl, length e = nv -> zsum e = 0 ->
+  (forall l tc, In l c -> In tc l -> (fst tc < nv)%nat /\ 0 <= snd tc) ->
+  mcf_iter_f ssp_levels (mcf_init e c) false = (MDone st, fl) -> fl = false ->
+  (forall x, In x (m_e st) -> x = 0) /\
+  forall v, (v < nv)%nat -> outflow_c nv (m_rb st) v - inflow (m_rb st) v = nz e v.
+Proof. exact caps_flow_conserved. Qed.
+Print Assumptions C10_caps_flow_conserved.
+
+(* With C10_mcf_model_optimal_if_A_idle_partial (f >= 0, reduced costs >= 0, f > 0 => reduced cost <= 0)
+   this gives, in list form, all five premises of C10_mcf_cert_optimal for the capacity flow at Done
+   under the flag.  STILL OPEN (named): caps_flow_indexing (re-express the capacity flow as a function
+   of the arc index so that gout = outflow - inflow, and instantiate the certificate),
+   x_caps_consistent (the returned x lists carry the same net flow), mcf_no_fail_if_flag_clear,
+   read_back_bookkeeping, artificial_node_unused.  So the suffix _partial stays and
+   C10_model_emd_correct keeps the in-model certificate. *)
